@@ -405,7 +405,7 @@ class FromArgs(Generic[T]):
 
     def __setitem__(self, i: int, arg: T) -> None:
         if i in self._i_to_arg:
-            assert self._i_to_arg[i] == arg
+            assert self._hash_fn(self._i_to_arg[i]) == self._hash_fn(arg)
         self._i_to_arg[i] = arg
         # Equal args resolve to the first index they were stored at
         self._arg_to_i.setdefault(self._hash_fn(arg), i)
